@@ -124,7 +124,8 @@ fn exact_phase(thorough: bool) -> Phase {
 
 // ---- rich stratum
 const RICH_COEF: [f64; 10] = [0.0, 1.0, -1.0, 0.1, -0.3333333333333333, 3.141592653589793, -2.5e-3, 7.25e5, -1e6, 1e-9];
-const RICH_ARGS: [f64; 18] = [0.0, 0.1, -0.1, 0.3333333333333333, -0.3333333333333333, 0.999999, -0.999999, 1.000001, 2.5, -2.5, 7.3, -7.3, 1e3, -1e3, 1e-3, -1e-3, 1.0, -1.0];
+const RICH_ARGS: [f64; 26] = [0.0, 0.1, -0.1, 0.3333333333333333, -0.3333333333333333, 0.999999, -0.999999, 1.000001, 2.5, -2.5, 7.3, -7.3, 1e3, -1e3, 1e-3, -1e-3, 1.0, -1.0,
+    1e5, -3e6, 2.5e7, 1e-5, -3e-7, 65536.0, 1.0000000000000002, -0.9999999999999999];
 const LOG_ARGS: [f64; 14] = [1.0, 0.5, 2.0, 7.0, 1e-3, 1e3, 0.999999, 1.0000000000000002, 1e-300, 1e300, 2.718281828459045, 5e-324, 1e-310, f64::MAX];
 
 struct Tables {
@@ -211,7 +212,7 @@ fn rich_phase(thorough: bool) -> Phase {
         ],
         bounds: json!({"forms": "Poly0..Poly8, PolyN of length 0,1,2,3,6,9,10,12",
             "coefficients": format!("cube over the first w values of {{0,1,-1,0.1,-1/3,pi,-2.5e-3,7.25e5,-1e6,1e-9}}: w=10 for <=6 coefficients, w={} for 7..9, w={} for 10..12", if thorough {7} else {4}, if thorough {4} else {3}),
-            "arguments": "{0,+-0.1,+-1/3,+-0.999999,1.000001,+-2.5,+-7.3,+-1e3,+-1e-3,+-1}",
+            "arguments": "{0,+-0.1,+-1/3,+-0.999999,1.000001,+-2.5,+-7.3,+-1e3,+-1e-3,+-1,1e5,-3e6,2.5e7,1e-5,-3e-7,65536,succ(1),-pred(1)}",
             "oracle": "exact dyadic sum S and bound B=4(n+2)*2^-53*sum|c_i||x|^i; verdict |got-S|<=B decided in exact arithmetic"}),
     }
 }
